@@ -83,6 +83,8 @@ def gen_case(rng, tier, i):
             r = rng.random()
             if r < 0.06:
                 ops.append(["earlier", t - rng.choice([1, 0.25, 1e-9 * max(1.0, abs(t)) * 4 + 1e-6]), _value(rng, klass)])
+            elif r < 0.075:
+                ops.append(["bad_end", rng.choice(["earlier", "nan"]), t - 1])
             elif r < 0.09:
                 ops.append(["bad", rng.choice(["nant", "nanv", "strt"])])
             ops.append(["obs", t, _value(rng, klass)])
@@ -285,6 +287,23 @@ def _run_T(case, ctx):
                 if t.isactive():
                     ctx.viol("still-active-after-end_observations", where)
                     return
+        elif k == "bad_end":
+            # a close that must be refused (earlier than the last timestamp, or NaN): nothing changes, still active
+            if closed or last is None or (op[1] == "earlier" and Fraction(op[2]) >= last):
+                continue
+            ts = math.nan if op[1] == "nan" else op[2]
+            before = fx(list(_getters(ctx, t, where).values()))
+            ctx.count("rejected_inputs")
+            try:
+                t.end_observations(ts)
+                ctx.viol("invalid-close-accepted", where)
+                return
+            except Exception:
+                pass
+            if fx(list(_getters(ctx, t, where).values())) != before or not t.isactive():
+                ctx.viol("rejected-close-changed-the-tally", {**where, "active": t.isactive()})
+                return
+            continue
         elif k == "earlier":
             if last is None or Fraction(op[1]) >= last:
                 continue
